@@ -130,6 +130,8 @@ def api_replay(L, N, use_obliquity, sync, what):
             return abs(v['tidal_heating'] - want) > 1e-6 * abs(want), 'heating=%r classical (21/2)(-Imk2)GM^2R^5 n e^2/a^6=%r' % (v['tidal_heating'], want)
         if what == 'nonneg':
             return v['tidal_heating'] < 0, 'heating=%r' % v['tidal_heating']
+        if what == 'dUdw':
+            return abs(v['dUdw'] - v['dUdO']) > 1e-9 * (abs(v['dUdw']) + abs(v['dUdO'])), 'zero obliquity: dUdw=%r dUdO=%r (l_max=%d)' % (v['dUdw'], v['dUdO'], L)
         return True, 'structural violation (%s); public API value: heating=%r dUdM=%r dUdO=%r' % (what, v['tidal_heating'], v['dUdM'], v['dUdO'])
     return rp
 
@@ -156,6 +158,12 @@ def job_entries(L, N, use_obliquity, sync, totals):
             goals_id.append(eq_goal(Q.of(ht), n * Q.of(dM) - spin * Q.of(dO)))
             goals_nn.append((Q.of(ht) >= 0).c)
         goals_fr.append((Q.of(uniq[sig]) >= 0).c)
+    # zero obliquity: only m = l - 2p survives in the obliquity-off tables, hence dUdw_term == dUdO_term per entry (used by the angular-momentum balance of C11)
+    goals_w = []
+    if not use_obliquity:
+        for sig, byl in res.items():
+            for l, (ht, dM, dw, dO) in byl.items():
+                goals_w.append(eq_goal(Q.of(dw), Q.of(dO)))
     if n_entries == 0:
         raise RuntimeError('calculate_terms returned no entries (vacuous)')
     # batches keep individual queries small
@@ -186,10 +194,14 @@ def job_entries(L, N, use_obliquity, sync, totals):
     else:
         results.append({'name': '%s: per-entry heating_term >= 0 for non-negative tables (%d entries, one query each)' % (tag, len(goals_nn)), 'key': 'entry-nonneg:%s' % tag,
                         'verdict': 'unsat', 'solver_s': round(tsum, 3), 'info': {'queries': len(goals_nn), 'unsat': n_nn_unsat}})
+    for i in range(0, len(goals_w), 40):
+        results.append(discharge(Obligation('%s: zero obliquity: per-entry dUdw_term == dUdO_term (entries %d..)' % (tag, i), z3.And(*goals_w[i:i + 40]), A,
+                                            replay=api_replay(L, N, use_obliquity, sync, 'dUdw'), key='entry-dUdw:%s' % tag)))
     results.append(discharge(Obligation('%s: every stored frequency is >= 0 and keyed consistently' % tag, z3.And(*goals_fr), A,
                                         replay=api_replay(L, N, use_obliquity, sync, 'frequency sign'), key='freq:%s' % tag)))
     if totals:
         comp, kconds = compliance_by_freq(uniq)
+        comp = dict(reversed(list(comp.items())))      # a dict is keyed by frequency signature: insertion order must not matter
         ts = Q.sym('tidal_scale')
         S = sus(M, R, a)
         heat, dUdM, dUdw, dUdO, love, negimk, effq = collapse(Q.sym('g'), R, Q.sym('rho'), Q(1), ts, M, S, comp, res, L, True)
@@ -210,6 +222,8 @@ def job_entries(L, N, use_obliquity, sync, totals):
         sS = z3.Real('S_')
         results.append(discharge(Obligation('%s: lemma: S >= 0 and t_i >= 0 imply S * sum t_i >= 0 (%d summands)' % (tag, len(ts_)), sS * z3.Sum(ts_) >= 0, [sS >= 0] + [t >= 0 for t in ts_],
                                             with_axioms=False, with_dens=False, replay=lambda md: (False, 'arithmetic lemma'), key='total-lemma:%s' % tag)))
+        if not use_obliquity:
+            results.append(discharge(Obligation('%s: zero obliquity: collapsed dUdw == dUdO' % tag, eq_goal(dUdw, dUdO), A2, replay=api_replay(L, N, use_obliquity, sync, 'dUdw'), key='total-dUdw:%s' % tag)))
         results.append(reach_twin(tag + ' totals', A2))
     results.append(reach_twin(tag, A))
     return {'results': results, 'encoded': loader.ENCODED, 'axioms': CTX.axiom_notes, 'label': tag}
@@ -336,15 +350,25 @@ def job_love_callsite(L):
     ecc, inc = abstract(ecc_r, 'G2_', nonneg), abstract(inc_r, 'F2_', nonneg)
     n, a, R, M, spin = [Q.sym(x) for x in ('n', 'a', 'R', 'Mh', 'spin')]
     uq, rs = calc(spin, n, a, R, ecc, inc)
-    J = Q.csym('J')
     mu, g, rho = Q.sym('mu'), Q.sym('g'), Q.sym('rho')
-    comp = {sig: J for sig in uq}
+    Js = {}
+    comp_fwd = {}
+    for sig, f in uq.items():
+        k = freq_key(f)
+        if k not in Js:
+            Js[k] = Q.csym('J%d' % len(Js))
+        comp_fwd[sig] = Js[k]
+    comp = dict(reversed(list(comp_fwd.items())))          # insertion order differs from tidal_terms_by_frequency on purpose
     out = collapse(g, R, rho, mu, Q(1), M, sus(M, R, a), comp, rs, L, False)
-    A = [x.re > 0 for x in (n, a, R, M, mu, g, rho)] + [z3.Or(J.re != 0, J.im != 0)] + nonneg
+    A = [x.re > 0 for x in (n, a, R, M, mu, g, rho)] + [z3.Or(J.re != 0, J.im != 0) for J in Js.values()] + nonneg
     results = []
     for l in range(2, L + 1):
         m_l = Q(Fr(2 * l * l + 4 * l + 3, l)) * mu / (rho * g * R)
-        want = Q(Fr(3, 2 * (l - 1))) / (1 + m_l / (J * mu))
+        sigs = [sig for sig, byl in rs.items() if l in byl]
+        want = Q(0)
+        for sig in sigs:
+            want = want + Q(Fr(3, 2 * (l - 1))) / (1 + m_l / (comp_fwd[sig] * mu))
+        want = want / len(sigs)
 
         def rp(md, l=l):
             kw = dict(host_mass=1.9e27, target_radius=1.8e6, target_mass=8.9e22, target_gravity=1.8, target_density=3500., target_moi=1.0e35, viscosity=1e17,
@@ -358,9 +382,11 @@ def job_love_callsite(L):
             Jc = 1 / 5e10 - 1j / (1e17 * w)
             ml = (2 * l * l + 4 * l + 3) / l * 5e10 / (3500. * 1.8 * 1.8e6)
             wantc = 3 / (2 * (l - 1)) / (1 + ml / (Jc * 5e10))
-            return abs(k - wantc) > 1e-9 * abs(wantc), 'quick_tidal_dissipation love_number_by_orderl[%d]=%r closed form (Maxwell at n)=%r' % (l, k, wantc)
-        results.append(discharge(Obligation('collapse_modes (non CPL): love_number_by_orderl[%d] == 3/(2(l-1))/(1+m_l/(J mu))' % l, eq_goal(out[4][l], want), A, replay=rp,
-                                            key='love-callsite:%d' % l)))
+            bad = abs(k - wantc) > 1e-9 * abs(wantc)
+            return True, 'collapse_modes love_number_by_orderl[%d]: public-API value (synchronous Maxwell, same-order dicts) %r vs closed form %r%s' % (
+                l, k, wantc, '' if bad else ' -- agrees there; the violation needs a compliance dict whose insertion order differs from the tidal-terms dict or frequency-dependent J')
+        results.append(discharge(Obligation('collapse_modes (non CPL): love_number_by_orderl[%d] == mean over its modes of 3/(2(l-1))/(1+m_l/(J(freq) mu)), compliance looked up by frequency signature' % l,
+                                            eq_goal(out[4][l], want), A, replay=rp, key='love-callsite:%d' % l)))
     results.append(reach_twin('love callsite', A))
     return {'results': results, 'encoded': loader.ENCODED, 'label': 'love callsite'}
 
